@@ -209,7 +209,9 @@ func checkC43(reg *Registry, c accCase) pbt.Result {
 				return pbt.Fail("%s: after %s the field is not emitted in %s (a fresh object decoding %s reports it absent)", c.Item, a.set, format, hexHead(enc))
 			}
 			// a # field may itself be a field mask whose bits are implied by the presence of its dependents
-			if hasArg && arg.Kind() != reflect.Uint32 {
+			// a value whose type takes # arguments is transmitted as those arguments select (here they may be the very
+			// mask the setter updates: f2:items.1?(wrap items)): only its presence is judged
+			if hasArg && arg.Kind() != reflect.Uint32 && !natDependent(arg.Type()) {
 				got := reflect.ValueOf(fresh).Elem().FieldByName(a.Field)
 				if got.IsValid() && !equalModuloEmpty(got, arg) && !HasNaN(arg.Interface()) && !(format != "tl1" && HasNegZero(arg.Interface())) {
 					return pbt.Fail("%s: after %s the %s encoding carries a different value for %s: %v instead of %v", c.Item, a.set, format, a.Field, got.Interface(), arg.Interface())
@@ -395,4 +397,20 @@ func propC43(t *testing.T, reg *Registry) {
 		}
 		return c
 	}, func(c accCase) pbt.Result { return checkC43(reg, c) })
+}
+
+// natDependent: the generated writer of the type (or of its element / pointee) takes # arguments after the buffer.
+func natDependent(t reflect.Type) bool {
+	for t.Kind() == reflect.Ptr || t.Kind() == reflect.Slice || t.Kind() == reflect.Array {
+		t = t.Elem()
+	}
+	if t.Kind() != reflect.Struct {
+		return false
+	}
+	for _, name := range []string{"WriteTL1", "WriteTL1Boxed", "WriteTL1General"} {
+		if m, ok := reflect.PointerTo(t).MethodByName(name); ok {
+			return m.Type.NumIn() > 2 // receiver, buffer
+		}
+	}
+	return false
 }
